@@ -5,6 +5,7 @@ import (
 	"math/rand"
 	"os"
 	"os/exec"
+	"os/signal"
 	"path/filepath"
 	"sort"
 	"strconv"
@@ -31,6 +32,23 @@ type osstopC struct {
 }
 
 func init() { Register("osstop", func() Component { return &osstopC{cache: map[string]string{}} }) }
+
+var osSigOnce sync.Once
+
+// defaultSignalDispositions makes sure the scenario processes start with the default disposition
+// of the signals the scenarios use: a harness started under nohup (SIGHUP ignored) or from a
+// background job would otherwise hand the ignored state down to every member, and sh cannot trap
+// a signal that was ignored on entry. Catching the signals here resets them to default in children.
+func defaultSignalDispositions() {
+	osSigOnce.Do(func() {
+		sink := make(chan os.Signal, 8)
+		signal.Notify(sink, syscall.SIGHUP, syscall.SIGUSR1, syscall.SIGUSR2)
+		go func() {
+			for range sink {
+			}
+		}()
+	})
+}
 
 type osMember struct {
 	id       string
@@ -123,6 +141,7 @@ func readPid(dir, id string) int {
 
 // scenario runs one stop scenario on real processes.
 func (c *osstopC) scenario(sig, timeout int, cmdKind string, parentOnly bool, tree []osMember, via string) string {
+	defaultSignalDispositions()
 	c.mu.Lock()
 	c.n++
 	mark := fmt.Sprintf("m%d_%d_%d", os.Getpid(), c.n, time.Now().UnixNano()%1000000)
